@@ -1903,10 +1903,10 @@ def find_region(cfg, fn):
                                 raise Shape("the region of %s is not at the top level of the function" % fn.name)
                             k0 = [id(x) for x in body].index(id(picked[0]))
                             holes = {id(s) for s in picked}
-                            if cfg.get("after_engine"):       # what follows is translated by the matching engine: blanked there
+                            if cfg.get("after_engine"):       # what surrounds the region is translated by the matching engine: blanked there
                                 from . import py2lean_matching
-                                return (list(picked), unparse_with_holes(body[:k0 + len(picked)], holes, collapse=True),
-                                        py2lean_matching.after_text(cfg["file"], fn, body[k0 + len(picked):]))
+                                return (list(picked), py2lean_matching.pin_text(cfg["file"], fn, body[:k0 + len(picked)], holes),
+                                        py2lean_matching.pin_text(cfg["file"], fn, body[k0:], holes))
                             return (list(picked), unparse_with_holes(body[:k0 + len(picked)], holes, collapse=True),
                                     unparse_with_holes(body[k0:], holes, collapse=True))
                         return list(picked), unparse_with_holes(body, {id(s) for s in picked}, collapse=True), None
@@ -2548,13 +2548,8 @@ TARGETS += [
 ]
 
 # ---- persim/bottleneck.py, persim/wasserstein.py : the augmented matrix, entry by entry  ->  augD / augEntry (C01, C02)
-PREP_SKELETON = (
-    "S = np.array(dgm1, dtype=float)\nM = min(S.shape[0], S.size)\nif S.size > 0:\n    S = S[np.isfinite(S[:, 1]), :]\n"
-    "    if S.shape[0] < M:\n        warnings.warn('dgm1 has points with non-finite death times;' + 'ignoring those points')\n"
-    "        M = S.shape[0]\nT = np.array(dgm2, dtype=float)\nN = min(T.shape[0], T.size)\nif T.size > 0:\n"
-    "    T = T[np.isfinite(T[:, 1]), :]\n    if T.shape[0] < N:\n"
-    "        warnings.warn('dgm2 has points with non-finite death times;' + 'ignoring those points')\n        N = T.shape[0]\n"
-    "if M == 0:\n    S = np.array([[0, 0]])\n    M = 1\nif N == 0:\n    T = np.array([[0, 0]])\n    N = 1\n...")
+# the preamble in front of the matrix (float conversion, finite-death filter with its warning, the (0,0) placeholder) is TRANSLATED
+# by the matching engine (py2lean_matching.py, targets `bn_preamble` / `ws_preamble`): in the `srcSkeleton_aug_entry` text it is `...`
 
 # what consumes the matrix: bottleneck's bisection over the sorted distinct entries with Hopcroft-Karp as the oracle and the
 # extraction of the matching; wasserstein's `linear_sum_assignment` and the matching rows.  Modelled by hand (Model/Bottleneck,
@@ -2571,7 +2566,7 @@ TARGETS += [
          variables="[Sub α] [Div α] [Neg α] [Zero α] [OfNat α 2] [Max α] [LE α] [DecidableLE α]",
          result="Ext α", fin=".fin %s", top=".top",
          mcalls={"np.abs": ("fn1", "absM"), "np.maximum": ("fn2", "max"), "np.zeros": ("zeros",)},
-         skeleton="return_matching = matching\n" + PREP_SKELETON, skeleton_after=BN_AFTER_SKELETON, after_engine=True,
+         skeleton="...", skeleton_after=BN_AFTER_SKELETON, after_engine=True,
          obligations=[("src_aug_entry_eq_model", "", "aug_entry (α := α) = augD", "rfl",
                        "the block assignments `D[0:M, 0:N] = max(|Sb - Tb|, |Sd - Td|)`, `D[0:M, N::]` / `D[M::, 0:N]` = inf with "
                        "`0.5 * (death - birth)` on the diagonal, zeros elsewhere, read entry by entry: the model's `augD`")]),
@@ -2583,7 +2578,7 @@ TARGETS += [
          mcalls={"np.sqrt": ("fn1", "sqrt"), "np.sum": ("sum_axis2",), "np.zeros": ("zeros",),
                  "np.cos": ("param", "cp", "np.cos(np.pi / 4)"), "np.sin": ("param", "sp", "np.sin(np.pi / 4)"),
                  "np.array": ("array22",)},
-         skeleton=PREP_SKELETON, skeleton_after=WS_AFTER_SKELETON, after_engine=True,
+         skeleton="...", skeleton_after=WS_AFTER_SKELETON, after_engine=True,
          obligations=[("src_aug_entry_eq_model", "", "aug_entry (α := α) = augEntry", "rfl",
                        "`DUL` from the coordinate differences, the rotation by `R = [[cp, -sp], [sp, cp]]`, the three block "
                        "assignments with the rotated second coordinate on the diagonals, read entry by entry: the model's "
